@@ -40,13 +40,33 @@ def make_array(seed, tag, shape, special=True, uid=None):
                 flat.view(np.uint64)[i] = struct.unpack(
                     "<Q", struct.pack("<d", nan_with_payload(int(rng.integers(1, 2**40)), negative=bool(c % 2)))
                 )[0]
+    if special and a.size >= 3:
+        # every "special" array carries at least one zero and one NaN (so that a
+        # bitwise twin, see below, always exists)
+        flat = a.reshape(-1)
+        flat[-1] = 0.0
+        flat.view(np.uint64)[-2] = struct.unpack("<Q", struct.pack("<d", nan_with_payload(12345)))[0]
     if uid is not None:
         a.reshape(-1)[0] = float(uid)
     return a
 
 
+def twin(a, k):
+    """An array that compares == (NaN-aware) to `a` but differs bitwise: the sign
+    of every zero is flipped and every NaN gets another payload."""
+    b = a.copy()
+    flat = b.reshape(-1)
+    bits = flat.view(np.uint64)
+    zero = flat == 0.0
+    bits[zero] ^= np.uint64(0x8000000000000000)
+    nan = np.isnan(flat)
+    bits[nan] ^= np.uint64(((k * 2654435761) & 0x0003FFFFFFFFFFFF) | 1)
+    return b
+
+
 def operator_from_spec(seed, spec):
-    """spec: {"uid": int, "p": int, "x": int, "err": bool, "special": bool}"""
+    """spec: {"uid": int, "p": int, "x": int, "err": bool, "special": bool,
+    "twin": int (optional: bitwise-different but ==-equal variant of the base value)}"""
     from eko.io.items import Operator
 
     shape = (spec["p"], spec["x"], spec["p"], spec["x"])
@@ -54,6 +74,10 @@ def operator_from_spec(seed, spec):
     err = None
     if spec.get("err"):
         err = make_array(seed, f"err{spec['uid']}", shape, spec.get("special", True), uid=-spec["uid"])
+    if spec.get("twin"):
+        op = twin(op, spec["twin"])
+        if err is not None:
+            err = twin(err, spec["twin"])
     return Operator(op, err)
 
 
